@@ -65,20 +65,20 @@ theorem step_inv (w : World) (op : Op) (h : w.msk.Inv w.rng) : (w.step op).msk.I
   | refresh usk keep => exact (refresh_inv w.msk usk keep w.rng h).1
   | draw k => exact RevMap.Inv.mono h (Nat.le_add_right _ _)
 
-theorem init_inv (n : Rng) : (World.init n).msk.Inv (World.init n).rng := by
-  have := (updateMsk_inv (setup n).1 (setup n).1.structure_.omega (setup n).2 (setup_inv n)).1
+theorem init_inv (n : Rng) (k : Nat) : (World.init n k).msk.Inv (World.init n k).rng := by
+  have := (updateMsk_inv (setup n k).1 (setup n k).1.structure_.omega (setup n k).2 (setup_inv n k)).1
   exact this
 
 /-- **Every reachable world satisfies the master-key invariant**: distinct rights, no token shared
 between two rights, every token already drawn. -/
 theorem reachable_inv (w : World) (h : Reachable w) : w.msk.Inv w.rng := by
-  obtain ⟨n, ops, rfl⟩ := h
+  obtain ⟨n, k, ops, rfl⟩ := h
   have : ∀ (ops : List Op) (w0 : World), w0.msk.Inv w0.rng → (ops.foldl World.step w0).msk.Inv (ops.foldl World.step w0).rng := by
     intro ops
     induction ops with
     | nil => intro w0 h0; exact h0
     | cons op rest ih => intro w0 h0; exact ih _ (step_inv w0 op h0)
-  exact this ops _ (init_inv n)
+  exact this ops _ (init_inv n k)
 
 end CC
 
@@ -174,7 +174,7 @@ theorem empty_wf : Struct.empty.WF ∧ Struct.empty.IdsBelow := by
 /-- **Every reachable world has a well-formed access structure** (distinct names, identifiers
 never shared: the D1 defect of the pinned tree violated exactly this) -/
 theorem reachable_struct_wf (w : World) (h : Reachable w) : w.msk.structure_.WF ∧ w.msk.structure_.IdsBelow := by
-  obtain ⟨n, ops, rfl⟩ := h
+  obtain ⟨n, k, ops, rfl⟩ := h
   have : ∀ (ops : List Op) (w0 : World), (w0.msk.structure_.WF ∧ w0.msk.structure_.IdsBelow) →
       ((ops.foldl World.step w0).msk.structure_.WF ∧ (ops.foldl World.step w0).msk.structure_.IdsBelow) := by
     intro ops
@@ -182,7 +182,7 @@ theorem reachable_struct_wf (w : World) (h : Reachable w) : w.msk.structure_.WF 
     | nil => intro w0 h0; exact h0
     | cons op rest ih => intro w0 h0; exact ih _ (step_struct w0 op h0)
   apply this ops
-  show (World.init n).msk.structure_.WF ∧ (World.init n).msk.structure_.IdsBelow
+  show (World.init n k).msk.structure_.WF ∧ (World.init n k).msk.structure_.IdsBelow
   unfold World.init
   simp only [updateMsk_structure]
   exact empty_wf
